@@ -814,6 +814,82 @@ func (fx *fnExec) noteUnspec(s string) { fx.unspecCallees[s] = true }
 func (fx *fnExec) execGo(x *ssa.Go, where string) {
 	fx.runHooks("go", calleeName(&x.Call), fx.curEnv(), where)
 	fx.havocShared()
+	// maps the spawned function writes (m[k] = v, delete) are shared with it: their content is unknown from here on, and
+	// again after every join (WaitGroup.Wait) - the spawner must not reason as if the map still were what it made
+	if callee := goCallee(x); callee != nil {
+		ms := newModSet()
+		fx.asyncMapMods(callee, ms, map[*ssa.Function]bool{})
+		if len(ms.heaps) > 0 {
+			fx.havoc(ms, "go")
+		}
+	}
+}
+
+func goCallee(x *ssa.Go) *ssa.Function {
+	switch f := x.Call.Value.(type) {
+	case *ssa.Function:
+		return f
+	case *ssa.MakeClosure:
+		return f.Fn.(*ssa.Function)
+	}
+	return nil
+}
+
+// collectAsyncMods: the maps written by any function this function spawns (whatever the order in which the blocks are
+// executed symbolically, a join placed after the spawning loop must see them as unknown).
+func (fx *fnExec) collectAsyncMods() {
+	fx.asyncMods = nil
+	ms := newModSet()
+	for _, b := range fx.fn.Blocks {
+		for _, in := range b.Instrs {
+			if g, ok := in.(*ssa.Go); ok {
+				fx.asyncMapMods(goCallee(g), ms, map[*ssa.Function]bool{})
+			}
+		}
+	}
+	if len(ms.heaps) > 0 {
+		fx.asyncMods = ms
+	}
+}
+
+func (fx *fnExec) asyncMapMods(fn *ssa.Function, ms *modSet, seen map[*ssa.Function]bool) {
+	if fn == nil || seen[fn] {
+		return
+	}
+	seen[fn] = true
+	for _, b := range fn.Blocks {
+		for _, in := range b.Instrs {
+			switch y := in.(type) {
+			case *ssa.MapUpdate:
+				if _, _, _, _, ok := fx.tryMapHeaps(y.Map.Type()); ok {
+					hn, _, _, _ := fx.mapHeaps(y.Map.Type())
+					ms.heaps[strings.TrimSuffix(hn, "has")+"*"] = true
+				}
+			case *ssa.Call:
+				if bi, isB := y.Call.Value.(*ssa.Builtin); isB && bi.Name() == "delete" {
+					if _, _, _, _, ok := fx.tryMapHeaps(y.Call.Args[0].Type()); ok {
+						hn, _, _, _ := fx.mapHeaps(y.Call.Args[0].Type())
+						ms.heaps[strings.TrimSuffix(hn, "has")+"*"] = true
+					}
+				}
+			case *ssa.MakeClosure:
+				fx.asyncMapMods(y.Fn.(*ssa.Function), ms, seen)
+			}
+		}
+	}
+}
+
+func (fx *fnExec) tryMapHeaps(mt types.Type) (a, b, c, d string, ok bool) {
+	defer func() {
+		if r := recover(); r != nil {
+			if _, isVC := r.(vcError); !isVC {
+				panic(r)
+			}
+			ok = false
+		}
+	}()
+	a, b, c, d = fx.mapHeaps(mt)
+	return a, b, c, d, true
 }
 
 func (fx *fnExec) havocShared() {
